@@ -90,6 +90,11 @@ class FacetBasis(AbstractBasis):
             self.tind = self.mesh.f2t[side, self.find]
             self.tind_normals = self.mesh.f2t[0, self.find]
 
+        if (self.tind < 0).any():
+            # f2t marks a missing neighbour by -1, which is no cell index
+            raise ValueError("side={} of an exterior facet does not "
+                             "exist.".format(side))
+
         if len(self.find) == 0:
             logger.warning("Initializing {} with no facets.".format(typestr))
 
